@@ -91,6 +91,14 @@ def regenerate(tier):
         if fl:
             pre.append((f["type"], f["method"], fl))
             broken.append(("lockfacts:access-before-lock:%s.%s" % (f["type"], f["method"]), "touches %s before taking the mutex it takes later in the same body" % ", ".join(fl)))
+    # a method of the lock-carrying arbitration state that WRITES one of its fields must run under the exclusive lock (its own, or —
+    # for an unexported helper — that of every caller): a lazily filled cache written under RLock() is exactly such a write
+    weak = []
+    for f in facts:
+        if f["type"] == "Configuration" and f["writes"] and f["lock"] != "w":
+            weak.append((f["type"], f["method"], f["lock"], f["writes"]))
+            broken.append(("lockfacts:write-without-exclusive-lock:%s.%s" % (f["type"], f["method"]),
+                           "writes %s while holding %s" % (", ".join(f["writes"]), {"r": "only the read lock", "none": "no lock"}[f["lock"]])))
     esc = lambda x: x.replace("\\", "\\\\").replace('"', '\\"')
     row = lambda f: '  ⟨"%s", "%s", "%s", [%s], [%s]⟩' % (esc(f["type"]), esc(f["method"]), f["lock"],
                                                        ", ".join('"%s"' % esc(x) for x in f["reads"] if (f["type"], x) in fields),
@@ -100,6 +108,8 @@ def regenerate(tier):
         out.write("def facts : List Fact := [\n" + ",\n".join(row(f) for f in keep) + "\n]\n\n")
         out.write("def observers : List Fact := [\n" + ",\n".join(row(f) for f in obs) + "\n]\n\n")
         out.write("def exempt : List String := [" + ", ".join('"%s"' % esc(x) for x in roles["exempt"]) + "]\n\n")
+        out.write("/-- methods of the arbitration state that write a field without holding the exclusive lock -/\n")
+        out.write("def weakWriters : List (String × String × String) := [" + ", ".join('("%s", "%s", "%s")' % (esc(t), esc(m), l) for t, m, l, _ in weak) + "]\n\n")
         out.write("/-- methods that take the receiver's mutex but touch a written field of the receiver BEFORE taking it -/\n")
         out.write("def prelocks : List (String × String × List String) := [" + ", ".join('("%s", "%s", [%s])' % (esc(t), esc(m), ", ".join('"%s"' % esc(x) for x in fl)) for t, m, fl in pre) + "]\n\nend Nic.Gen.LockFacts\n")
     return dict(broken=broken, obligations=len(obs) + 1, discharged=len(obs) + 1 - len(broken),
